@@ -17,10 +17,10 @@ class Parser(object):
         ('left', 'EQUAL'),
         ('left', 'LESSEQ', 'GREATEREQ', 'NOTEQUAL'),
         ('left', 'GREATER', 'LESS'),
+        ('left', 'AMP'),  # 1+2&3 is "33": & joins what the arithmetic operators have computed
         ('left', 'PLUS', 'MINUS'),
         ('left', 'MULT', 'DIV'),
         ('left', 'CARET'),
-        ('left', 'AMP'),
         ('left', 'PERCENT'),
         ('left', 'UMINUS')
     )
